@@ -86,7 +86,8 @@ class Check:
         self.obligations = list(theorems)
         st = coqbuild.regenerate()
         self.stats["translator"] = {k: v for k, v in st.items() if not k.startswith("_")}
-        if st.get("_exit") != 0:
+        if st.get("_exit") not in (0, 2):
+            # 2 = some generator failed closed: that concerns only the properties that list that Gen file
             self.proof_problems.append(f"translator exited {st.get('_exit')}: {st.get('_stderr', '')[-500:]}")
         for g in gen_files or []:
             info = st.get(g)
